@@ -57,6 +57,40 @@ func init() {
 			res.Gen["sqlcrud"] = runGen(func() string { return generator.WriteDeclarations(sqlcrud.Generate(an, false)) })
 			res.Gen["sqlcrud_sets"] = runGen(func() string { return generator.WriteDeclarations(sqlcrud.Generate(an, true)) })
 		}
+		if want["decls"] {
+			// the declaration lists as the generators hand them to WriteDeclarations (C19: equal IDs carry equal content)
+			res.Gen["decls"] = runGen(func() string {
+				type d struct {
+					ID, Content string
+					Prio        bool
+				}
+				lists := map[string][]d{}
+				conv := func(name string, l []generator.Declaration) {
+					out := make([]d, len(l))
+					for i, x := range l {
+						out[i] = d{x.ID, x.Content, x.Priority}
+					}
+					lists[name] = out
+				}
+				try := func(name string, f func() []generator.Declaration) {
+					defer func() { recover() }() // refusals are the business of C18
+					conv(name, f())
+				}
+				try("ts", func() []generator.Declaration { return typescript.Generate(an) })
+				try("sql", func() []generator.Declaration { return gsql.Generate(an) })
+				try("gounions", func() []generator.Declaration { return gounions.Generate(an) })
+				try("randdata", func() []generator.Declaration { return randdata.Generate(an) })
+				try("sqlcrud", func() []generator.Declaration { return sqlcrud.Generate(an, false) })
+				func() {
+					defer func() { recover() }()
+					for _, o := range dart.Generate(filepath.Dir(target), []*analysis.Analysis{an}) {
+						conv("dart:"+o.Filename, o.Content)
+					}
+				}()
+				b, _ := json.Marshal(lists)
+				return string(b)
+			})
+		}
 		if want["tables"] {
 			out := runGen(func() string { return coqTableFacts(pkg, an) })
 			res.Gen["tables"] = out
